@@ -529,6 +529,13 @@ class Interp:
                         raise Raised("KeyError", s)
                 elif isinstance(t, ast.Name):
                     env.pop(t.id, None)
+                elif isinstance(t, ast.Attribute):
+                    base = self.ev(t.value, env)
+                    if not isinstance(base, Obj):
+                        raise Unsupported("del of an attribute of something that is not a stand-in")
+                    if t.attr not in base.attrs:
+                        raise Raised("AttributeError", s)
+                    del base.attrs[t.attr]
                 else:
                     raise Unsupported("del target")
         else:
